@@ -614,6 +614,13 @@ class Verifier:
                 break
         if not found:
             raise Unsupported(f'block {first}..{last} not found')
+        if getattr(c, 'block_skip', 0):
+            # the block proper starts after its anchor statement(s): what they compute is an input
+            sk = c.block_skip
+            found = found[sk:] if isinstance(sk, int) else \
+                [x for i, x in enumerate(found) if i not in set(sk)]
+            if not found:
+                raise Unsupported(f'block {first}..{last} is empty after skipping')
         # A block contract says nothing about how control reaches the block.  Guard: the exits
         # (return statements with the tests they sit under) that precede the block are
         # fingerprinted; when they differ from the fingerprint recorded with the baseline the
